@@ -36,6 +36,7 @@ OPS = {'extract': 1, 'extract1': 2, 'trim': 3, 'split_hop': 4, 'split_list': 5, 
 ERR = {1: 'QuantizationStatusError', 2: 'ValueError', 3: 'ValueError', 4: 'ValueError', 5: 'HOP0'}
 Q = nsio.QUARTER_SEC
 HOP_UNIT = 1 << 20          # 2^-20 s in ticks
+PEDALS = (64, 66, 67)       # the control numbers the property statement names
 
 
 def gen_coq():
@@ -434,6 +435,10 @@ def check_piece(w, pres, a, b, p, i):
             if 0 <= tau < b - a and _in_effect(piece, tau) != _in_effect(orig, a + tau):
                 return {'kind': 'state-in-effect-differs', 'event': name, 'piece': i, 'interval': [a, b], 'tau': tau,
                         'piece_value': _in_effect(piece, tau), 'original_value': _in_effect(orig, a + tau)}
+    for name, orig, piece in kinds:
+        for e in piece:
+            if not (e[0] == 0 or 0 < e[0] < b - a):
+                return {'kind': 'event-outside-piece', 'event': name, 'piece': i, 'interval': [a, b], 'time': e[0]}
     wantb = sorted([t[0] - a] + t[1:] for t in texts if t[3] == 2 and a <= t[0] < b)
     if sorted(pbt) != wantb:
         return {'kind': 'beats-not-partitioned', 'piece': i, 'interval': [a, b]}
@@ -491,8 +496,7 @@ def oracle(case, io):
     if op == 'extract' and a.get('pres') is not None:
         pres = list(a['pres'])
     else:
-        from note_seq import sequences_lib as sl
-        pres = list(sl.DEFAULT_SUBSEQUENCE_PRESERVE_CONTROL_NUMBERS)
+        pres = list(PEDALS)      # the property names them: sustain, sostenuto, una corda
     for i, p in enumerate(pieces):
         v = check_piece(w, pres, pts[i], pts[i + 1], p, i)
         if v:
